@@ -159,7 +159,11 @@ func (st *State) comp(name string, sortStr string) string {
 	}
 	if !st.declared[n] {
 		st.declare(n, sortStr)
-		st.compAxiom(name, sym(n), sortStr)
+		a := st.alloc
+		if st.epoch == 0 && st.lazyTag[name] == "" {
+			a = Term{S: "alloc0", Sort: SInt} // entry-state version
+		}
+		st.compAxiom(name, sym(n), sortStr, a)
 	}
 	st.heap[name] = sym(n)
 	return sym(n)
@@ -195,7 +199,7 @@ func (st *State) havocComp(name string) {
 	}
 	n := st.freshName(name)
 	st.declare(n, sortStr)
-	st.compAxiom(name, sym(n), sortStr)
+	st.compAxiom(name, sym(n), sortStr, st.alloc)
 	st.heap[name] = sym(n)
 }
 
@@ -261,7 +265,7 @@ func (st *State) compAt(h *HeapSnap, name, sortStr string) string {
 	}
 	if !st.declared[n] {
 		st.declare(n, sortStr)
-		st.compAxiom(name, sym(n), sortStr)
+		st.compAxiom(name, sym(n), sortStr, h.alloc)
 	}
 	// if the current state is in the same epoch and has not touched the
 	// component, both views coincide
@@ -309,7 +313,7 @@ func (st *State) seedKey(t Term) {
 
 // compAxiom asserts the type invariant of a freshly declared version of an
 // integer-valued heap component: every value it holds is in the range of its Go type.
-func (st *State) compAxiom(name, symbol, sortStr string) {
+func (st *State) compAxiom(name, symbol, sortStr string, alloc Term) {
 	if st.rangeOf == nil {
 		return
 	}
@@ -317,12 +321,25 @@ func (st *State) compAxiom(name, symbol, sortStr string) {
 	if !ok {
 		return
 	}
+	// value invariant as a function of the selected value term
+	inv := func(val string) string {
+		switch lo {
+		case "ref":
+			return fmt.Sprintf("(and (<= 0 %s) (<= %s %s))", val, val, alloc.S)
+		case "slice":
+			return fmt.Sprintf("(and (<= 0 (sl_len %s)) (<= (sl_len %s) (sl_cap %s)) (<= (sl_cap %s) 72057594037927936) (<= 0 (sl_off %s)) (<= 0 (sl_arr %s)) (<= (sl_arr %s) %s) (=> (= (sl_arr %s) 0) (= (sl_cap %s) 0)))",
+				val, val, val, val, val, val, val, alloc.S, val, val)
+		}
+		return fmt.Sprintf("(and (<= %s %s) (<= %s %s))", lo, val, val, hi)
+	}
 	switch {
 	case strings.HasPrefix(sortStr, "(Array Int (Array "):
 		inner := strings.TrimPrefix(sortStr, "(Array Int (Array ")
 		ks := inner[:strings.Index(inner, " ")]
-		st.cmds = append(st.cmds, fmt.Sprintf("(assert (forall ((r Int) (k %s)) (! (and (<= %s (select (select %s r) k)) (<= (select (select %s r) k) %s)) :pattern ((select (select %s r) k)))))", ks, lo, symbol, symbol, hi, symbol))
+		sel := fmt.Sprintf("(select (select %s r) k)", symbol)
+		st.cmds = append(st.cmds, fmt.Sprintf("(assert (forall ((r Int) (k %s)) (! %s :pattern (%s))))", ks, inv(sel), sel))
 	case strings.HasPrefix(sortStr, "(Array Int "):
-		st.cmds = append(st.cmds, fmt.Sprintf("(assert (forall ((r Int)) (! (and (<= %s (select %s r)) (<= (select %s r) %s)) :pattern ((select %s r)))))", lo, symbol, symbol, hi, symbol))
+		sel := fmt.Sprintf("(select %s r)", symbol)
+		st.cmds = append(st.cmds, fmt.Sprintf("(assert (forall ((r Int)) (! %s :pattern (%s))))", inv(sel), sel))
 	}
 }
